@@ -117,7 +117,7 @@ def run(rep, tier, seed):
             comp = {"cands": cset, "byword": rng.random() < 0.6}
             if rng.random() < 0.25:
                 comp["nospace"] = rng.choice(["/", "*", "="])
-            cs = {"id": "c14-%d" % ci, "inputrc": ("set editing-mode vi\n" if mode == "vi" else "") + opts, "w": rng.choice([80, 40, 120]), "h": 24,
+            cs = {"id": "c14-%d" % ci, "inputrc": ("set editing-mode vi\n" if mode == "vi" else "") + opts + case_options(rng, ci, skip=("autocomplete", "disable-completion", "completion-query-items", "history-autosuggest", "keyseq-timeout")), "w": rng.choice([80, 40, 120]), "h": 24,
                   "prompt": "> ", "comp": comp, "setups": [], "sessions": []}
             ci += 1
             ms = []
